@@ -99,6 +99,10 @@ mutual
               | some (.mk _ sty sk) => isIntPrim sty && !(isOptional sk) && !(isArrayKind sk)
               | none => false)
           | none => true)
+      -- substitute_len_field: the shift leaves the sizer room to count; validate_bound_shift: one shift per sizer
+      && (match k with
+          | .dyn s sh => decide ((sh : Int) < sizerMax s all) && sh == sizerShift s all
+          | _ => true)
       && pyRtMs all r (before ++ [.mk n t k])
   def pyRtArms : List Arm → Bool
     | [] => true
